@@ -237,8 +237,20 @@ func (interp *Interpreter) cfg(root *node, sc *scope, importPath, pkgName string
 						k, o = n.anc.child[0], n.anc.child[1]
 					}
 
+					switch rt := o.typ.TypeOf(); {
+					case o.typ.cat == intT:
+					case isInt(rt) || isUint(rt):
+						// Range over an integer of another type than int.
+						n.anc.gen = rangeInt
+						sc.add(o.typ)
+						ktyp = o.typ
+					}
+
 					switch o.typ.cat {
 					case valueT, linkedT:
+						if ktyp != nil {
+							break
+						}
 						typ := o.typ.rtype
 						if o.typ.cat == linkedT {
 							typ = o.typ.val.TypeOf()
